@@ -596,6 +596,9 @@ ABIGEN_EVENTS = {
     ("polygonzkevmglobalexitrootv2", "UpdateL1InfoTreeV2"): [("CurrentL1InfoRoot", "data", 0, "bytes32"), ("LeafCount", "topic", 1, "uint32"),
                                                              ("Blockhash", "data", 1, "uint256"), ("MinTimestamp", "data", 2, "uint64")],
     ("polygonzkevmglobalexitrootv2", "InitL1InfoRootMap"): [("LeafCount", "data", 0, "uint32"), ("CurrentL1InfoRoot", "data", 1, "bytes32")],
+    ("globalexitrootmanagerl2sovereignchain", "UpdateHashChainValue"): [("NewGlobalExitRoot", "topic", 1, "bytes32"), ("NewHashChainValue", "topic", 2, "bytes32")],
+    ("globalexitrootmanagerl2sovereignchain", "UpdateRemovalHashChainValue"): [("RemovedGlobalExitRoot", "topic", 1, "bytes32"),
+                                                                              ("NewRemovalHashChainValue", "topic", 2, "bytes32")],
     ("polygonrollupmanager", "VerifyBatches"): [("RollupID", "topic", 1, "uint32"), ("NumBatch", "data", 0, "uint64"), ("StateRoot", "data", 1, "bytes32"),
                                                 ("ExitRoot", "data", 2, "bytes32"), ("Aggregator", "topic", 2, "address")],
     ("polygonrollupmanager", "VerifyBatchesTrustedAggregator"): [("RollupID", "topic", 1, "uint32"), ("NumBatch", "data", 0, "uint64"), ("StateRoot", "data", 1, "bytes32"),
@@ -605,6 +608,7 @@ ABIGEN_SIGS = {
     "UpdateL1InfoTree": "UpdateL1InfoTree(bytes32,bytes32)", "UpdateL1InfoTreeV2": "UpdateL1InfoTreeV2(bytes32,uint32,uint256,uint64)",
     "InitL1InfoRootMap": "InitL1InfoRootMap(uint32,bytes32)", "VerifyBatches": "VerifyBatches(uint32,uint64,bytes32,bytes32,address)",
     "VerifyBatchesTrustedAggregator": "VerifyBatchesTrustedAggregator(uint32,uint64,bytes32,bytes32,address)",
+    "UpdateHashChainValue": "UpdateHashChainValue(bytes32,bytes32)", "UpdateRemovalHashChainValue": "UpdateRemovalHashChainValue(bytes32,bytes32)",
 }
 
 
@@ -676,31 +680,17 @@ def _abigen_pattern(eng, st, fr, args, ins, fname=None):
     raise Unsupported("abigen binding call")
 
 
+ABIGEN_PKGS = {
+    "polygonzkevmglobalexitrootv2": ("pp/l2-sovereign-chain/polygonzkevmglobalexitrootv2", "Polygonzkevmglobalexitrootv2"),
+    "polygonrollupmanager": ("fep/etrog/polygonrollupmanager", "Polygonrollupmanager"),
+    "globalexitrootmanagerl2sovereignchain": ("pp/l2-sovereign-chain/globalexitrootmanagerl2sovereignchain", "Globalexitrootmanagerl2sovereignchain"),
+}
+
+
 def install_abigen(eng):
-    for pkg, contract in (("pp/l2-sovereign-chain/polygonzkevmglobalexitrootv2", "Polygonzkevmglobalexitrootv2"), ("fep/etrog/polygonrollupmanager", "Polygonrollupmanager")):
-        eng.intrinsics[CT + pkg + ".New" + contract] = _abigen_new
+    for pkg, (full, contract) in ABIGEN_PKGS.items():
+        eng.intrinsics[CT + full + ".New" + contract] = _abigen_new
     for (pkg, event) in ABIGEN_EVENTS:
-        for full in (k for k in ("pp/l2-sovereign-chain/polygonzkevmglobalexitrootv2", "fep/etrog/polygonrollupmanager") if k.endswith(pkg)):
-            contract = {"polygonzkevmglobalexitrootv2": "Polygonzkevmglobalexitrootv2", "polygonrollupmanager": "Polygonrollupmanager"}[pkg]
-            name = "(*%s%s.%sFilterer).Parse%s" % (CT, full, contract, event)
-            eng.intrinsics[name] = (lambda e, s, f, a, i, n=name: _abigen_parse(e, s, f, a, i, n))
-
-
-# ---- regexp on concrete strings (table-name validation and the like)
-@intr("regexp.MustCompile")
-def regexp_mustcompile(eng, st, fr, args, ins):
-    if not isinstance(args[0], str):
-        raise Unsupported("regexp.MustCompile of a symbolic pattern")
-    return eng.alloc_val(st, "zz:regexp", (args[0],))
-
-
-@intr("(*regexp.Regexp).MatchString")
-def regexp_matchstring(eng, st, fr, args, ins):
-    import re
-    r, s = args
-    if isinstance(r, Opaque) or r is None:
-        raise Unsupported("regexp not created by a modelled call")
-    pat = eng.load(st, r)[0]
-    if not isinstance(s, str):
-        raise Unsupported("regexp match on a symbolic string")
-    return re.search(pat, s) is not None
+        full, contract = ABIGEN_PKGS[pkg]
+        name = "(*%s%s.%sFilterer).Parse%s" % (CT, full, contract, event)
+        eng.intrinsics[name] = (lambda e, s, f, a, i, n=name: _abigen_parse(e, s, f, a, i, n))
